@@ -218,6 +218,7 @@ def write_replay(prop, seed, k, payload):
 
 def run_check(prop, tier, seed, replay=None):
     ctx = Ctx(prop, tier, seed, replay)
+    os.environ['VERIF_TIER'] = tier          # (read by vlib.util.guarded_leg for the CPU budget of a leg)
     mod = importlib.import_module(f'harness.{prop.lower()}')
     violations = []      # dicts: what, signature, replay payload, found_input(bool)
     notes = []
